@@ -26,8 +26,12 @@ _MISSING = object()
 def _plan(mod, files):
     plan = {}
     g = vars(mod)
+    import json as _json
+    from . import symjson
     for name, val in list(g.items()):
-        if val is np:
+        if val is _json:
+            plan[name] = symjson
+        elif val is np:
             plan[name] = symnp
         elif val is np.linalg:
             plan[name] = symnp.linalg
